@@ -42,7 +42,7 @@ func modeC03(thorough bool) {
 		listeners: allListeners,
 		upstreams: map[string]string{"u1": "udp", "u2": "tcp", "u3": "tcp+pipeline"},
 		sets:      map[string][]string{"s1": {"domain:z1.test"}, "s2": {"domain:z2.test"}, "s3": {"domain:z3.test"}, "s4": {"domain:z4.test"}, "s5": {"domain:z5.test"}},
-		rules: []ruleSpec{{Set: "s1", Forward: "u1"}, {Set: "s2", Forward: "u2"}, {Set: "s3", Reject: 3}, {Set: "s4"}, {Set: "s5", Forward: "u3"}},
+		rules:     []ruleSpec{{Set: "s1", Forward: "u1"}, {Set: "s2", Forward: "u2"}, {Set: "s3", Reject: 3}, {Set: "s4"}, {Set: "s5", Forward: "u3"}},
 	})
 	if err != nil {
 		panic(err)
@@ -72,7 +72,11 @@ func modeC03(thorough bool) {
 			k++
 		}
 		// unsupported queries and rule outcomes
-		base := func(z string) qspec { q := mkq(fmt.Sprintf("%s.r0t60d0.%s.test.", uniq(), z)); q.id = uint16(2000 + len(jobs)); return q }
+		base := func(z string) qspec {
+			q := mkq(fmt.Sprintf("%s.r0t60d0.%s.test.", uniq(), z))
+			q.id = uint16(2000 + len(jobs))
+			return q
+		}
 		q1 := base("z1")
 		q1.rd = false
 		q2 := base("z1")
@@ -164,7 +168,7 @@ func modeC10(rulesFile string) {
 // ---------------------------------------------------------------- C10: start-up decisions (in-process)
 func modeC10Boot() {
 	type bc struct {
-		name                                       string
+		name                                     string
 		unkFwd, unkSet, dupUp, dupSet, rejectToo bool
 	}
 	cases := []bc{{name: "valid"}, {name: "unkfwd", unkFwd: true}, {name: "unkfwd-reject", unkFwd: true, rejectToo: true},
@@ -235,7 +239,7 @@ func modeC07(thorough bool) {
 		}
 	}()
 	par(rounds, func(i int) {
-		flags := []string{"", "fM", ""}[i%3]
+		flags := []string{"", "fM", "fR", "", "fMR"}[i%5] // R: SRV and MX records (names inside RDATA)
 		base := fmt.Sprintf("%s.r0t60d0%s.zz.test.", uniq(), flags)
 		if i%4 == 3 {
 			base = fmt.Sprintf("%s.r3t20d0fA.zz.test.", uniq()) // negative answers are cached too
@@ -251,24 +255,27 @@ func modeC07(thorough bool) {
 			in.send(lst, src, q, 4*time.Second, hdr)
 		}
 		A, IN := dns.TypeA, uint16(dns.ClassINET)
-		ask("udp", "127.0.1.1", base, A, IN, "")                       // first: miss, stored for group office
-		ask("udp", "127.0.1.1", base, A, IN, "")                       // repeat: must hit
-		ask("tcp", "127.0.1.77", strings.ToUpper(base), A, IN, "")     // other case, same group (other address, other listener)
-		ask("udp", "127.0.2.7", base, A, IN, "")                       // other range, same label: same group
-		ask("udp", "127.0.1.1", base, dns.TypeAAAA, IN, "")            // other type
-		ask("udp", "127.0.1.1", base, A, dns.ClassCHAOS, "")           // other class
-		ask("udp", "127.0.1.1", base, A, 254, "")                      // other class (unusual)
-		ask("udp", "127.0.1.1", "x"+base, A, IN, "")                   // other name
-		ask("udp", "127.0.2.5", base, A, IN, "")                       // other group (single-address range)
-		ask("udp", "127.0.2.4", base, A, IN, "")                       // just below that range: no group
-		ask("udp", "127.0.3.1", base, A, IN, "")                       // just above the office range: no group
-		ask("udp", "127.0.9.9", base, A, IN, "")                       // no group again: must hit the no-group entry
-		ask("http", "", base, A, IN, "10.0.0.7")                       // group ten via client address header
-		ask("http", "", base, A, IN, "::ffff:10.0.0.200")              // IPv4-mapped form of the same range: same group
-		ask("http", "", base, A, IN, "2001:db8::1")                    // v6 range
-		ask("http", "", base, A, IN, "2001:db8::1:0")                  // just above the v6 range: no group
-		ask("http", "", base, A, IN, "192.0.2.1, 10.9.9.9")            // first address of a list counts
-		ask("udp", "127.0.1.1", base, A, IN, "")                       // and the first entry is still there
+		ask("udp", "127.0.1.1", base, A, IN, "")                   // first: miss, stored for group office
+		ask("udp", "127.0.1.1", base, A, IN, "")                   // repeat: must hit
+		ask("tcp", "127.0.1.77", strings.ToUpper(base), A, IN, "") // other case, same group (other address, other listener)
+		ask("udp", "127.0.2.7", base, A, IN, "")                   // other range, same label: same group
+		ask("udp", "127.0.1.1", base, dns.TypeAAAA, IN, "")        // other type
+		ask("udp", "127.0.1.1", base, A, dns.ClassCHAOS, "")       // other class
+		ask("udp", "127.0.1.1", base, A, 254, "")                  // other class (unusual)
+		ask("udp", "127.0.1.1", "x"+base, A, IN, "")               // other name
+		ask("udp", "127.0.2.5", base, A, IN, "")                   // other group (single-address range)
+		ask("udp", "127.0.2.4", base, A, IN, "")                   // just below that range: no group
+		ask("udp", "127.0.3.1", base, A, IN, "")                   // just above the office range: no group
+		ask("udp", "127.0.9.9", base, A, IN, "")                   // no group again: must hit the no-group entry
+		ask("http", "", base, A, IN, "10.0.0.7")                   // group ten via client address header
+		ask("http", "", base, A, IN, "::ffff:10.0.0.200")          // IPv4-mapped form of the same range: same group
+		ask("http", "", base, A, IN, "2001:db8::1")                // v6 range
+		ask("http", "", base, A, IN, "2001:db8::1:0")              // just above the v6 range: no group
+		ask("http", "", base, A, IN, "192.0.2.1, 10.9.9.9")        // first address of a list counts
+		ask("udp", "127.0.1.1", base, A, IN, "")                   // and the first entry is still there
+		time.Sleep(450 * time.Millisecond)
+		ask("tcp", "127.0.1.9", base, A, IN, "")    // well after the answer was relayed: served from the cache
+		ask("http", "", base, A, IN, "2001:db8::1") // every group has its own entry by now
 	})
 	// refresh window: hits in the last quarter of an 8 s entry start background refreshes while
 	// other requests are in flight (recycled request objects)
@@ -394,7 +401,9 @@ func modeC08(thorough bool, only string) {
 		steps []step
 	}
 	var scs []sc
-	add := func(tag string, o instOpts, prep func(in *inst), steps ...step) { scs = append(scs, sc{tag, o, prep, steps}) }
+	add := func(tag string, o instOpts, prep func(in *inst), steps ...step) {
+		scs = append(scs, sc{tag, o, prep, steps})
+	}
 	n := func(lab string) string { return fmt.Sprintf("%s.%s.tm.test.", uniq(), lab) }
 	one := func(name string, ats ...int) []step {
 		var r []step
@@ -422,6 +431,14 @@ func modeC08(thorough bool, only string) {
 		add("t-nodisp", base, func(in *inst) { in.ups["u1"].setSeq(nd, "r0t8d0", "r2t0d0") }, one(nd, 0, 6400, 7000, 7300)...)
 		nd2 := n("r0t8d0")
 		add("t-nodisp5", base, func(in *inst) { in.ups["u1"].setSeq(nd2, "r0t8d0", "r5t0d0") }, one(nd2, 0, 6400, 7000, 7300)...)
+		nd3 := n("r0t8d0")
+		add("t-nodisp4", base, func(in *inst) { in.ups["u1"].setSeq(nd3, "r0t8d0", "r4t0d0") }, one(nd3, 0, 6400, 7000, 7300)...)
+		// refresh answered by a truncated reply (over UDP and over the TCP retry): not cacheable, the old entry stays
+		nd4 := n("r0t8d0")
+		add("t-nodisptc", base, func(in *inst) { in.ups["u1"].setSeq(nd4, "r0t8d0", "r0t8d0fT", "r0t8d0fT") }, one(nd4, 0, 6400, 7000, 7300, 11500)...)
+		// a zero TTL among larger ones bounds the lifetime, wherever it stands
+		add("t-zero", base, nil, one(n("r0t300d0fZ"), 0, 500, 3500)...)
+		add("t-zeromid", base, nil, one(n("r0t10d0fY"), 0, 400, 3500)...)
 		if thorough {
 			add("t-nx30", base, nil, one(n("r3t600d0fA"), 0, 15000, 28000, 32500)...)
 			add("t-nodata30", base, nil, one(n("r0t300d0fN"), 0, 10000, 32500)...)
@@ -453,6 +470,12 @@ func modeC08(thorough bool, only string) {
 		p4 := n("r0t8d0")
 		add("p-sfreply", base, func(in *inst) { in.ups["u1"].setSeq(p4, "r0t8d0", "r2t0d30") },
 			step{0, 1, p4}, step{ms(6300), 8, p4}, step{ms(6800), 4, p4}, step{ms(6900), 1, p4})
+		for i, rc := range []string{"r5t0d30", "r4t0d30", "r1t0d30", "r0t8d0fT"} {
+			pn := n("r0t8d0")
+			seq := []string{"r0t8d0", rc, rc}
+			add(fmt.Sprintf("p-badreply%d", i), base, func(in *inst) { in.ups["u1"].setSeq(pn, seq...) },
+				step{0, 1, pn}, step{ms(6300), 8, pn}, step{ms(6800), 4, pn}, step{ms(6900), 1, pn})
+		}
 		p3 := n("r0t8d0")
 		add("p-silent", base, func(in *inst) { in.ups["u1"].setSeq(p3, "r0t8d0", "r0t8d0fS") },
 			step{0, 1, p3}, step{ms(6300), 8, p3}, step{ms(6900), 4, p3})
@@ -466,9 +489,9 @@ func modeC04(thorough bool) {
 	defer own.T.Close()
 	in, err := newInst("c04", instOpts{
 		listeners: allListeners,
-		upstreams: map[string]string{"u1": "udp", "u2": "tcp", "u3": "tcp+pipeline"},
-		sets:      map[string][]string{"s1": {"domain:z1.test"}, "s2": {"domain:z2.test"}},
-		rules:     []ruleSpec{{Set: "s1", Forward: "u1"}, {Set: "s2", Forward: "u2"}, {Forward: "u3"}},
+		upstreams: map[string]string{"u1": "udp", "u2": "tcp", "u3": "tcp+pipeline", "u4": "http"},
+		sets:      map[string][]string{"s1": {"domain:z1.test"}, "s2": {"domain:z2.test"}, "s4": {"domain:z4.test"}},
+		rules:     []ruleSpec{{Set: "s1", Forward: "u1"}, {Set: "s2", Forward: "u2"}, {Set: "s4", Forward: "u4"}, {Forward: "u3"}},
 		cacheMem:  48 << 10, // eviction pressure
 	})
 	if err != nil {
@@ -481,8 +504,8 @@ func modeC04(thorough bool) {
 	}
 	names := make([]string, nNames)
 	for i := range names {
-		z := []string{"z1", "z2", "z3"}[i%3]
-		lab := fmt.Sprintf("r0t%dd%d", 2+i%3, []int{0, 3, 9, 25}[i%4])
+		z := []string{"z1", "z2", "z3", "z4"}[i%4]
+		lab := fmt.Sprintf("r0t%dd%d", 2+i%3, []int{0, 3, 9, 25, 1}[i%5])
 		switch i % 17 {
 		case 5:
 			lab = "r3t20d5fA"
